@@ -125,11 +125,15 @@ def reshape_failure_cases(
         isinstance(failure_cases, pd.DataFrame)
         and len(failure_cases.columns) > 0
         and not (
-            failure_cases.index.is_unique and failure_cases.columns.is_unique
+            failure_cases.index.is_unique
+            and failure_cases.columns.is_unique
+            and not failure_cases.index.hasnans
+            and not failure_cases.columns.hasnans
         )
     ):
         # unstack() cannot reshape a frame whose index or column labels
-        # repeat: lay the cells out in the same column-major order by hand
+        # repeat or are null: lay the cells out in the same column-major
+        # order by hand
         n_rows, n_cols = failure_cases.shape
         reshaped_failure_cases = pd.DataFrame(
             {
